@@ -79,13 +79,21 @@ fn judge_program(r: &mut Rng) -> Vec<Op> {
     let mut ops = gen_program(r, &cfg);
     // names CPython rewrites on read (NUL truncation) or that are empty are outside this judge's subset
     for op in ops.iter_mut() {
+        let mut renamed = false;
         match op {
             Op::StartFile { name, .. } | Op::StartExtra { name, .. } | Op::StartAligned { name, .. } | Op::AddDir { name, .. } | Op::AddSymlink { name, .. } => {
                 if !py_name_ok(name) {
                     *name = format!("n{}", r.below(1000));
+                    renamed = true;
                 }
             }
             _ => {}
+        }
+        if renamed {
+            // the name was replaced: the path-taking variant would still produce the old one
+            if let Op::StartFile { o, .. } | Op::AddDir { o, .. } = op {
+                o.via_path = None;
+            }
         }
         // CPython cannot be given an empty password (b"" means "no password")
         if let Op::StartFile { o, .. } = op {
@@ -171,7 +179,11 @@ impl Scenario for PyJudge {
                            "mode": e.mode, "password": e.password.as_ref().map(|p| Hex(p.clone())), "kind": format!("{:?}", e.kind)})
                 })
                 .collect();
-            let exp = json!({"entries": entries, "comment": Hex(m.comment.clone()), "unzip": !encrypted && i % 4 == 0});
+            // Info-ZIP interprets the CONTENT of extra records whose IDs it knows (0x7441 AtheOS, OS/2, BeOS ...);
+            // generated user extra data carries arbitrary IDs with arbitrary bodies, which says nothing about
+            // the crate (false alarm under VERIF_SEED=3): those archives go to CPython only
+            let user_extra = ops.iter().any(|op| matches!(op, Op::StartExtra { .. }));
+            let exp = json!({"entries": entries, "comment": Hex(m.comment.clone()), "unzip": !encrypted && !user_extra && i % 4 == 0});
             let _ = std::fs::write(dir.join(format!("{i}.zip")), &img);
             let _ = std::fs::write(dir.join(format!("{i}.json")), exp.to_string());
             if m.entries.iter().any(|e| e.len() > 0 && e.kind != MKind::Dir) {
